@@ -111,6 +111,9 @@ func (c chainBridge) Status() (td uint64, currentBlock types.Hash, genesisBlock 
 }
 
 func (c chainBridge) InsertChain(momentums []*nom.DetailedMomentum) (int, error) {
+	if len(momentums) == 0 {
+		return 0, errors.Errorf("can't insert an empty list of momentums")
+	}
 	a := momentums[0]
 	b := momentums[len(momentums)-1]
 	log.Info("start inserting chain", "num-momentums", len(momentums), "start-identifier", a.Momentum.Identifier(), "end-identifier", b.Momentum.Identifier())
@@ -156,6 +159,11 @@ func (c chainBridge) InsertChain(momentums []*nom.DetailedMomentum) (int, error)
 		target, err := store.GetMomentumByHeight(head.Height - 1)
 		if err != nil {
 			return 0, err
+		}
+		if target == nil {
+			// the first unknown momentum is not on top of any of our momentums (height 0 or above frontier+1)
+			log.Error("can't link momentums to insert", "reason", "no momentum at previous height")
+			return 0, errors.Errorf("can't link momentums to insert. First momentum Prev is %v but we have no momentum at that height", head.Previous())
 		}
 		if target.Identifier() != head.Previous() {
 			log.Error("can't link momentums to insert", "first")
